@@ -1,2 +1,463 @@
 import Model.Find
 import Proofs.Lemmas.Time
+/-!
+Helper lemmas for C01 about `Model/Find.lean`: the adjusted period, exclusion, sorting,
+bundling, and the pruning-completeness induction `dirsOk_of_placed`.
+-/
+namespace FS
+open TM
+
+/-! ### small facts -/
+
+theorem lookup_mem {β : Type} (l : List (String × β)) (k : String) (v : β)
+    (h : l.lookup k = some v) : (k, v) ∈ l := by
+  induction l with
+  | nil => simp at h
+  | cons a t ih =>
+    obtain ⟨a1, a2⟩ := a
+    simp only [List.lookup_cons] at h
+    by_cases e : k == a1
+    · simp [e] at h; simp at e; subst e; subst h; simp
+    · simp [e] at h; exact List.mem_cons_of_mem _ (ih h)
+
+theorem isExcluded_iff (cfg : Config) (f : FileRec) :
+    isExcluded cfg f = true ↔
+      f.id ∈ cfg.exclNames ∨ ∃ p ∈ cfg.exclTimes, p.1 ≤ f.t1 ∧ f.t0 ≤ p.2 := by
+  simp [isExcluded]
+
+/-- directory-level white-list check follows from the whole-path check when the directory
+values are those of the path -/
+theorem whiteOk_sub (wl : List (String × List String)) (us vs : List (String × String))
+    (hsub : vs.all (fun nv => us.lookup nv.1 == some nv.2) = true) (h : whiteOk wl us = true) :
+    whiteOk wl vs = true := by
+  unfold whiteOk at *
+  rw [List.all_eq_true] at *
+  intro nv hnv
+  have h1 := hsub nv hnv
+  simp only [beq_iff_eq] at h1
+  exact h (nv.1, nv.2) (lookup_mem _ _ _ h1)
+
+/-! ### the adjusted period -/
+
+theorem period_ok {cfg : Config} {q : Query} {s e ds : Nat} (h : period cfg q = .ok (s, e, ds)) :
+    s = startOf q ∧ e + 1 = stopOf q ∧ s ≤ e ∧
+    (cfg.layout = [] ∧ ds = s ∨ ds = 0 ∧ s = 0 ∨
+      ∃ r, subDirRes cfg.layout = some r ∧ r ≤ s ∧ ds = s - r) := by
+  unfold period at h
+  by_cases h0 : stopOf q = 0
+  · simp [h0] at h
+  · by_cases h1 : stopOf q - 1 < startOf q
+    · simp [h0, h1] at h
+    · simp only [h0, h1, if_false] at h
+      cases hr : subDirRes cfg.layout with
+      | none =>
+        rw [hr] at h
+        simp only [Except.ok.injEq, Prod.mk.injEq] at h
+        obtain ⟨rfl, rfl, rfl⟩ := h
+        refine ⟨rfl, by omega, by omega, Or.inl ⟨?_, rfl⟩⟩
+        unfold subDirRes at hr
+        by_cases he : cfg.layout.isEmpty = true
+        · simpa using he
+        · simp [he] at hr
+      | some r =>
+        rw [hr] at h
+        by_cases h2 : startOf q = 0
+        · simp only [h2, if_true, Except.ok.injEq, Prod.mk.injEq] at h
+          obtain ⟨rfl, rfl, rfl⟩ := h
+          exact ⟨h2.symm, by omega, by omega, Or.inr (Or.inl ⟨rfl, rfl⟩)⟩
+        · by_cases h3 : startOf q < r
+          · simp [h2, h3] at h
+          · simp only [h2, h3, if_false, Except.ok.injEq, Prod.mk.injEq] at h
+            obtain ⟨rfl, rfl, rfl⟩ := h
+            exact ⟨rfl, by omega, by omega, Or.inr (Or.inr ⟨r, rfl, by omega, rfl⟩)⟩
+
+/-! ### sorting -/
+
+theorem keyLe_trans (a b c : FileRec) (h1 : keyLe a b = true) (h2 : keyLe b c = true) :
+    keyLe a c = true := by
+  unfold keyLe at *
+  simp only [Bool.or_eq_true, Bool.and_eq_true, decide_eq_true_eq] at *
+  omega
+
+theorem keyLe_total (a b : FileRec) : (keyLe a b || keyLe b a) = true := by
+  unfold keyLe
+  simp only [Bool.or_eq_true, Bool.and_eq_true, decide_eq_true_eq]
+  omega
+
+theorem sortFiles_perm (l : List FileRec) : (sortFiles l).Perm l := List.mergeSort_perm l keyLe
+
+theorem sortFiles_sorted (l : List FileRec) :
+    (sortFiles l).Pairwise (fun a b => keyLe a b = true) :=
+  List.pairwise_mergeSort keyLe_trans keyLe_total l
+
+/-! ### bundling by count -/
+
+theorem chunksAux_flatten {α : Type} (n : Nat) (hn : 0 < n) :
+    ∀ (fuel : Nat) (l : List α), l.length ≤ fuel → (chunksAux n fuel l).flatten = l := by
+  intro fuel
+  induction fuel with
+  | zero => intro l h; simp at h; subst h; simp [chunksAux]
+  | succ k ih =>
+    intro l h
+    unfold chunksAux
+    split
+    · rename_i he; simp at he; subst he; simp
+    · rename_i hne
+      have hl : 0 < l.length := by
+        cases l with
+        | nil => simp at hne
+        | cons a t => simp
+      rw [List.flatten_cons, ih (l.drop n) (by rw [List.length_drop]; omega), List.take_append_drop]
+
+theorem chunksAux_props {α : Type} (n : Nat) (hn : 0 < n) :
+    ∀ (fuel : Nat) (l : List α), ∀ b ∈ chunksAux n fuel l, b ≠ [] ∧ b.length ≤ n := by
+  intro fuel
+  induction fuel with
+  | zero => intro l b hb; simp [chunksAux] at hb
+  | succ k ih =>
+    intro l b hb
+    unfold chunksAux at hb
+    split at hb
+    · simp at hb
+    · rename_i hne
+      rcases List.mem_cons.mp hb with h | h
+      · subst h
+        constructor
+        · cases l with
+          | nil => simp at hne
+          | cons a t =>
+            cases n with
+            | zero => omega
+            | succ m => simp
+        · rw [List.length_take]; omega
+      · exact ih _ b h
+
+/-! ### bundling by frequency -/
+
+theorem foldl_min_le (l : List Nat) (a : Nat) : l.foldl min a ≤ a ∧ ∀ x ∈ l, l.foldl min a ≤ x := by
+  induction l generalizing a with
+  | nil => simp
+  | cons b t ih =>
+    simp only [List.foldl_cons]
+    obtain ⟨h1, h2⟩ := ih (min a b)
+    refine ⟨by omega, ?_⟩
+    intro x hx
+    rcases List.mem_cons.mp hx with h | h
+    · subst h; omega
+    · exact h2 x h
+
+theorem foldl_min_mem (l : List Nat) (a : Nat) : l.foldl min a = a ∨ l.foldl min a ∈ l := by
+  induction l generalizing a with
+  | nil => simp
+  | cons b t ih =>
+    simp only [List.foldl_cons]
+    rcases ih (min a b) with h | h
+    · rcases Nat.le_total a b with hab | hab
+      · left; rw [h]; omega
+      · right; rw [h]; simp; left; omega
+    · right; exact List.mem_cons_of_mem _ h
+
+/-- every group is non-empty and lies in one bin; the groups together are a permutation -/
+theorem groupAux_props (w : Nat) :
+    ∀ (fuel : Nat) (l : List FileRec), l.length ≤ fuel →
+      (groupAux w fuel l).flatten.Perm l ∧
+      ∀ b ∈ groupAux w fuel l, b ≠ [] ∧ ∀ x ∈ b, ∀ y ∈ b, binOf w x = binOf w y := by
+  intro fuel
+  induction fuel with
+  | zero => intro l h; simp at h; subst h; simp [groupAux]
+  | succ k ih =>
+    intro l h
+    cases l with
+    | nil => simp [groupAux]
+    | cons f t =>
+      simp only [groupAux]
+      generalize hb : (t.map (binOf w)).foldl min (binOf w f) = b
+      have hmem : ∃ g ∈ f :: t, binOf w g = b := by
+        rcases foldl_min_mem (t.map (binOf w)) (binOf w f) with h1 | h1
+        · exact ⟨f, by simp, by rw [← hb, h1]⟩
+        · rw [hb] at h1
+          obtain ⟨g, hg, e⟩ := List.mem_map.mp h1
+          exact ⟨g, List.mem_cons_of_mem _ hg, e⟩
+      have hlen : ((f :: t).filter fun g => binOf w g != b).length ≤ k := by
+        obtain ⟨g, hg, e⟩ := hmem
+        have : ((f :: t).filter fun g => binOf w g != b).length < (f :: t).length := by
+          apply List.length_filter_lt_length_iff_exists.mpr
+          exact ⟨g, hg, by simp [e]⟩
+        simp only [List.length_cons] at h this
+        omega
+      obtain ⟨ihp, ihb⟩ := ih _ hlen
+      constructor
+      · rw [List.flatten_cons]
+        have hsplit : List.Perm (((f :: t).filter fun g => binOf w g == b) ++
+            ((f :: t).filter fun g => binOf w g != b)) (f :: t) := by
+          have := List.filter_append_perm (fun g => binOf w g == b) (f :: t)
+          have e : (fun g => binOf w g != b) = (fun g => !(binOf w g == b)) := by
+            funext g; rfl
+          rw [e]; exact this
+        exact (List.Perm.append_left _ ihp).trans hsplit
+      · intro bb hbb
+        rcases List.mem_cons.mp hbb with h1 | h1
+        · subst h1
+          constructor
+          · obtain ⟨g, hg, e⟩ := hmem
+            intro hnil
+            have : g ∈ (f :: t).filter fun g => binOf w g == b :=
+              List.mem_filter.mpr ⟨hg, by simp [e]⟩
+            rw [hnil] at this; simp at this
+          · intro x hx y hy
+            have hx' := (List.mem_filter.mp hx).2
+            have hy' := (List.mem_filter.mp hy).2
+            simp only [beq_iff_eq] at hx' hy'
+            omega
+        · exact ihb bb h1
+
+theorem groupByBin_props (w : Nat) (l : List FileRec) :
+    (groupByBin w l).flatten.Perm l ∧
+    ∀ b ∈ groupByBin w l, b ≠ [] ∧ ∀ x ∈ b, ∀ y ∈ b, binOf w x = binOf w y :=
+  groupAux_props w l.length l (le_refl _)
+
+end FS
+
+namespace FS
+open TM
+
+/-! ### pruning completeness -/
+
+/-- `acc` holds exactly the placeholders `fs`, each with the value of the field of `t` -/
+structure AccOf (t : Nat) (fs : List Field) (acc : TAttr) : Prop where
+  pres : levelConforms ⟨false, fs⟩ ⟨acc, []⟩ = true
+  vals : levelOfTime t ⟨acc, []⟩ = true
+
+theorem accOf_nil (t : Nat) : AccOf t [] {} := ⟨by decide, by simp [levelOfTime, optAll]⟩
+
+theorem isSome_orElse {α : Type} (a b : Option α) : (b <|> a).isSome = (b.isSome || a.isSome) := by
+  cases b <;> simp
+
+theorem optAll_orElse (a b : Option Nat) (p : Nat → Bool) (ha : optAll a p = true)
+    (hb : optAll b p = true) : optAll (b <|> a) p = true := by
+  cases b <;> simpa [optAll] using (by first | exact ha | exact hb)
+
+theorem accOf_merge {t : Nat} {fs : List Field} {acc : TAttr} {c : Chunk} {v : Level}
+    (h : AccOf t fs acc) (hc : levelConforms c v = true) (hv : levelOfTime t v = true) :
+    AccOf t (fs ++ c.fields) (acc.merge v.t) := by
+  obtain ⟨hp, hvals⟩ := h
+  constructor
+  · simp only [levelConforms, Bool.and_eq_true, beq_iff_eq] at hp hc ⊢
+    simp only [TAttr.merge, isSome_orElse, List.contains_append]
+    obtain ⟨⟨⟨⟨⟨p1, p2⟩, p3⟩, p4⟩, p5⟩, p6⟩ := hp
+    obtain ⟨⟨⟨⟨⟨c1, c2⟩, c3⟩, c4⟩, c5⟩, c6⟩ := hc
+    rw [p1, p2, p3, p4, p5, p6, c1, c2, c3, c4, c5, c6]
+    simp [Bool.or_comm]
+  · simp only [levelOfTime, Bool.and_eq_true] at hvals hv ⊢
+    obtain ⟨⟨⟨⟨⟨p1, p2⟩, p3⟩, p4⟩, p5⟩, p6⟩ := hvals
+    obtain ⟨⟨⟨⟨⟨c1, c2⟩, c3⟩, c4⟩, c5⟩, c6⟩ := hv
+    simp only [TAttr.merge]
+    exact ⟨⟨⟨⟨⟨optAll_orElse _ _ _ p1 c1, optAll_orElse _ _ _ p2 c2⟩, optAll_orElse _ _ _ p3 c3⟩,
+      optAll_orElse _ _ _ p4 c4⟩, optAll_orElse _ _ _ p5 c5⟩, optAll_orElse _ _ _ p6 c6⟩
+
+end FS
+
+namespace FS
+open TM
+
+theorem resOfFields_hour {fs : List Field} (h : fs.contains .hour = true) : resOfFields fs = .hour := by
+  unfold resOfFields; rw [h]; rfl
+
+theorem resOfFields_day {fs : List Field} (h : fs.contains .hour = false)
+    (h2 : (fs.contains .day || fs.contains .doy) = true) : resOfFields fs = .day := by
+  unfold resOfFields; rw [h, h2]; rfl
+
+/-- **the three outcomes of `_check_placeholders` all accept the directory of `t`** when
+`ds ≤ t ≤ e` (or when the levels so far hold no temporal placeholder at all) -/
+theorem check_of_acc {t ds e : Nat} {fs : List Field} {acc : TAttr} (hacc : AccOf t fs acc)
+    (ht : t ≤ maxT) (h1 : ds ≤ t ∨ fs = []) (h2 : t ≤ e) :
+    checkPlaceholders acc (truncTo (resOfFields fs) ds) (truncTo (resOfFields fs) e) = true := by
+  obtain ⟨hp, hv⟩ := hacc
+  simp only [levelConforms, Bool.and_eq_true, beq_iff_eq] at hp
+  simp only [levelOfTime, Bool.and_eq_true] at hv
+  obtain ⟨⟨⟨⟨⟨p1, p2⟩, p3⟩, p4⟩, p5⟩, p6⟩ := hp
+  obtain ⟨⟨⟨⟨⟨v1, v2⟩, v3⟩, v4⟩, v5⟩, v6⟩ := hv
+  unfold checkPlaceholders
+  cases hy : acc.stdYear with
+  | none => rfl
+  | some y =>
+    -- the year is the year of `t`
+    have hyt : y = yearOf t := by
+      unfold TAttr.stdYear at hy
+      cases h2' : acc.year2 with
+      | some y2 =>
+        rw [h2'] at hy v2; simp only [Option.some.injEq] at hy
+        simp only [optAll, beq_iff_eq] at v2; omega
+      | none =>
+        rw [h2'] at hy; simp only at hy
+        rw [hy] at v1; simpa [optAll] using v1
+    subst hyt
+    have hds : ds ≤ t := by
+      rcases h1 with h | h
+      · exact h
+      · subst h
+        simp only [List.contains_nil] at p1 p2
+        unfold TAttr.stdYear at hy
+        cases h2' : acc.year2 with
+        | some y2 => rw [h2'] at p2; simp at p2
+        | none =>
+          rw [h2'] at hy; simp only at hy
+          rw [hy] at p1; simp at p1
+    have hfb : decide (yearOf (truncTo (resOfFields fs) ds) ≤ yearOf t ∧
+        yearOf t ≤ yearOf (truncTo (resOfFields fs) e)) = true := by
+      rw [yearOf_truncTo, yearOf_truncTo]
+      exact decide_eq_true ⟨yearOf_mono hds, yearOf_mono h2⟩
+    simp only []
+    -- month and day, when both known, are those of `t`; then day or doy is a placeholder
+    have hmd : ∀ m d, acc.stdMonthDay = (some m, some d) →
+        m = monthOf t ∧ d = domOf t ∧ (fs.contains .day || fs.contains .doy) = true := by
+      intro m d hmd
+      unfold TAttr.stdMonthDay at hmd
+      rw [hy] at hmd
+      cases hd : acc.doy with
+      | some n =>
+        rw [hd] at hmd v5 p5
+        simp only [Prod.mk.injEq, Option.some.injEq] at hmd
+        simp only [optAll, beq_iff_eq] at v5
+        subst v5
+        obtain ⟨e1, e2⟩ := doy_fields t
+        refine ⟨by rw [← hmd.1, e1], by rw [← hmd.2, e2], ?_⟩
+        rw [← p5]; simp
+      | none =>
+        rw [hd] at hmd
+        simp only [Prod.mk.injEq] at hmd
+        rw [hmd.1] at v3; rw [hmd.2] at v4 p4
+        simp only [optAll, beq_iff_eq] at v3 v4
+        refine ⟨v3, v4, ?_⟩
+        rw [← p4]; simp
+    rcases hsm : acc.stdMonthDay with ⟨om, od⟩
+    cases om with
+    | none => simpa using hfb
+    | some m =>
+      cases od with
+      | none => simpa using hfb
+      | some d =>
+        obtain ⟨rfl, rfl, hdd⟩ := hmd m d hsm
+        simp only []
+        cases hh : acc.hour with
+        | some h =>
+          rw [hh] at v6 p6
+          simp only [optAll, beq_iff_eq] at v6
+          subst v6
+          rw [mkDate_fields_hour ht]
+          have hr : resOfFields fs = .hour := resOfFields_hour (by rw [← p6]; rfl)
+          rw [hr]
+          exact decide_eq_true ⟨truncTo_mono _ hds, truncTo_mono _ h2⟩
+        | none =>
+          rw [hh] at p6
+          rw [mkDate_fields_day ht]
+          have hr : resOfFields fs = .day := resOfFields_day (by rw [← p6]; rfl) hdd
+          rw [hr]
+          exact decide_eq_true ⟨truncTo_mono _ hds, truncTo_mono _ h2⟩
+
+end FS
+
+namespace FS
+open TM
+
+/-- **pruning completeness, induction over the directory levels**: the chain of
+directories of a file whose start time `t` satisfies `ds ≤ t ≤ e` survives every level of
+`_get_search_dirs` -/
+theorem dirsOk_of_placed (wl : List (String × List String)) (t ds e : Nat) (ht : t ≤ maxT)
+    (h2 : t ≤ e) :
+    ∀ (cs : List Chunk) (vs : List Level) (fs : List Field) (acc : TAttr),
+      AccOf t fs acc → conforms cs vs = true → vs.all (levelOfTime t) = true →
+      vs.all (fun v => whiteOk wl v.users) = true →
+      (ds ≤ t ∨ (fs = [] ∧ ∀ c ∈ cs, c.fields = [])) →
+      dirsOk wl ds e fs acc cs vs = true := by
+  intro cs
+  induction cs with
+  | nil =>
+    intro vs fs acc _ hc _ _ _
+    cases vs with
+    | nil => rfl
+    | cons v vs => simp [conforms] at hc
+  | cons c cs ih =>
+    intro vs fs acc hacc hc hv hw H
+    cases vs with
+    | nil => simp [conforms] at hc
+    | cons v vs =>
+      simp only [conforms, Bool.and_eq_true] at hc
+      simp only [List.all_cons, Bool.and_eq_true] at hv hw
+      unfold dirsOk
+      have Hrest : ∀ fs' : List Field, (fs = [] → c.fields = [] → fs' = []) →
+          (ds ≤ t ∨ (fs' = [] ∧ ∀ c' ∈ cs, c'.fields = [])) := by
+        intro fs' hfs
+        rcases H with h | ⟨h1, h3⟩
+        · exact Or.inl h
+        · exact Or.inr ⟨hfs h1 (h3 c (by simp)), fun c' hc' => h3 c' (List.mem_cons_of_mem _ hc')⟩
+      by_cases hl : c.lit = true
+      · rw [if_pos hl]
+        exact ih vs fs acc hacc hc.2 hv.2 hw.2 (Hrest fs (fun h _ => h))
+      · rw [if_neg hl]
+        have hacc' := accOf_merge hacc hc.1 hv.1
+        have H' := Hrest (fs ++ c.fields) (fun h1 h3 => by rw [h1, h3]; rfl)
+        have hchk := check_of_acc (ds := ds) (e := e) hacc' ht
+          (H'.imp id (fun h => h.1)) h2
+        simp only [Bool.and_eq_true]
+        exact ⟨⟨hw.1, hchk⟩, ih vs _ _ hacc' hc.2 hv.2 hw.2 H'⟩
+
+/-- the declarative selection of C01 for the adjusted period `[s, e]` -/
+def sel (cfg : Config) (F : Filters) (s e : Nat) (f : FileRec) : Bool :=
+  overlaps f s e && !isExcluded cfg f && whiteOk F.white f.users && blackOk F.black f.users
+
+theorem sel_of_keep {cfg : Config} {F : Filters} {s e ds : Nat} {f : FileRec}
+    (h : keep cfg F s e ds f = true) : sel cfg F s e f = true := by
+  unfold keep at h; unfold sel
+  simp only [Bool.and_eq_true] at h ⊢
+  exact ⟨⟨⟨h.1.1.2, h.1.2⟩, h.1.1.1.2⟩, h.2⟩
+
+theorem fields_empty_of_flatMap {L : List Chunk} (h : (L.flatMap (·.fields)).isEmpty = true) :
+    ∀ c ∈ L, c.fields = [] := by
+  intro c hc
+  rw [List.isEmpty_iff] at h
+  have := List.flatMap_eq_nil_iff.mp h c hc
+  exact this
+
+theorem keep_of_sel {cfg : Config} {q : Query} {s e ds : Nat} {f : FileRec}
+    (hper : period cfg q = .ok (s, e, ds)) (hwp : wellPlaced cfg f = true)
+    (h : sel cfg q.filters s e f = true) : keep cfg q.filters s e ds f = true := by
+  unfold sel at h
+  simp only [Bool.and_eq_true] at h
+  obtain ⟨⟨⟨ho, hx⟩, hw⟩, hb⟩ := h
+  unfold wellPlaced at hwp
+  simp only [Bool.and_eq_true, decide_eq_true_eq] at hwp
+  obtain ⟨⟨⟨⟨⟨w1, w2⟩, w3⟩, w4⟩, w5⟩, w6⟩ := hwp
+  unfold overlaps at ho
+  simp only [decide_eq_true_eq] at ho
+  have hdirs : dirsOk q.filters.white ds e [] {} cfg.layout f.dirs = true := by
+    apply dirsOk_of_placed q.filters.white f.t0 ds e (by omega) ho.1 cfg.layout f.dirs [] {}
+      (accOf_nil _) w1 w2
+    · rw [List.all_eq_true] at w6 ⊢
+      intro v hv
+      exact whiteOk_sub _ _ _ (w6 v hv) hw
+    · obtain ⟨_, _, _, hcase⟩ := period_ok hper
+      rcases hcase with ⟨hl, _⟩ | ⟨h0, _⟩ | ⟨r, hr, hrs, hds⟩
+      · right; rw [hl]; exact ⟨rfl, by simp⟩
+      · left; omega
+      · rw [hr] at w5
+        simp only [Bool.or_eq_true, decide_eq_true_eq] at w5
+        rcases w5 with h5 | h5
+        · right; exact ⟨rfl, fields_empty_of_flatMap h5⟩
+        · left; omega
+  unfold keep
+  simp only [Bool.and_eq_true]
+  refine ⟨⟨⟨⟨hdirs, hw⟩, ?_⟩, hx⟩, hb⟩
+  unfold overlaps; exact decide_eq_true ho
+
+theorem keep_eq_sel {cfg : Config} {q : Query} {s e ds : Nat} {f : FileRec}
+    (hper : period cfg q = .ok (s, e, ds)) (hwp : wellPlaced cfg f = true) :
+    keep cfg q.filters s e ds f = sel cfg q.filters s e f := by
+  cases hk : keep cfg q.filters s e ds f with
+  | true => exact (sel_of_keep hk).symm
+  | false =>
+    cases hs : sel cfg q.filters s e f with
+    | false => rfl
+    | true => rw [keep_of_sel hper hwp hs] at hk; cases hk
+
+end FS
